@@ -111,6 +111,14 @@ func c16Run(x *core.Ctx) {
 			x.Do(cm, func() { c16Check(x, cm) })
 		}
 	}
+	if x.Shard == 1 || (!x.Quick() && x.Shard == 2) {
+		g := "query"
+		if x.Shard == 2 {
+			g = "schema"
+		}
+		hc := core.NewCase("huge", "grammar", g, "tokens", strconv.Itoa(1<<20+1000+x.Rand(5).Intn(50000)))
+		x.Do(hc, func() { c16Check(x, hc) })
+	}
 	// floods: a fixed list distributed over the shards
 	sizes := []int{1 << 20}
 	limits := []int{1, 10, 1000}
@@ -175,6 +183,28 @@ func c16Check(x *core.Ctx, c *core.Case) {
 		c16Limits(x, g, c.Get("src"))
 	case "multi":
 		c16Multi(x, c)
+	case "huge":
+		// a VALID document with more tokens than any ceiling someone might put on the limit itself (2^20 and a bit):
+		// under a limit at or above its token count it parses, below it fails
+		n, _ := strconv.Atoi(c.Get("tokens"))
+		var text string
+		if c.Get("grammar") == "query" {
+			text = "{" + strings.Repeat(" a", n-2) + " }"
+		} else {
+			text = "enum E {" + strings.Repeat(" A", n-4) + " }"
+		}
+		src := &ast.Source{Name: "huge.graphql", Input: text}
+		x.Count("huge_valid_documents")
+		x.Nontrivial()
+		for _, L := range []int{n, n + 1, math.MaxInt32, 0} {
+			if a := c16Parse(c.Get("grammar"), src, L, true); a.err != nil {
+				x.Violate("exact:fails-at-or-above-T:"+c.Get("grammar"), fmt.Sprintf("T=%d limit %d -> %s", n, L, errText(a.err)), "parses: the document has exactly T tokens")
+				return
+			}
+		}
+		if a := c16Parse(c.Get("grammar"), src, n-1, true); a.err == nil {
+			x.Violate("exact:succeeds-below-T:"+c.Get("grammar"), fmt.Sprintf("T=%d limit %d succeeds", n, n-1), "fails: more than L tokens")
+		}
 	case "flood":
 		sz, _ := strconv.Atoi(c.Get("size"))
 		lim, _ := strconv.Atoi(c.Get("limit"))
